@@ -3,6 +3,7 @@ package main
 // Logical model: Go types -> SMT sorts, values, heap components, states.
 
 import (
+	"hash/fnv"
 	"fmt"
 	"go/types"
 	"sort"
@@ -33,6 +34,8 @@ const prelude = `(set-option :produce-models true)
 ; string identity by content: sid(arr, lo, hi)
 (declare-fun sid ((Array Int Int) Int Int) Int)
 (declare-fun sidlen (Int) Int)
+(declare-fun clofn (Int) Int)
+(declare-fun clovar (Int Int) Int)
 ; eolA(a, p, h): first position q in [p,h) with a[q] = LF, else h
 @EOLA@
 ; trimA(a, l, h): strings.TrimSpace of a[l:h) as a string value (uninterpreted)
@@ -671,4 +674,11 @@ func eq(a, b string) string {
 		return "true"
 	}
 	return "(= " + a + " " + b + ")"
+}
+
+// fnID: a stable integer naming a function in closure facts (clofn).
+func fnID(name string) int {
+	h := fnv.New32a()
+	h.Write([]byte(name))
+	return int(h.Sum32()%1000000000) + 1
 }
